@@ -239,8 +239,6 @@ def run_family(ctx, prop):
             ctx.inconclusive.append('unit %s not found' % unit)
             continue
         ls = lengths(kind, quick)
-        if prop == 'C13':
-            ls = ls[-2:]
         for L in ls:
             tasks.append((unit, sym, kind, bits, L, 0, False, 16, facets, True))
             if kind == 'cntr':
@@ -277,6 +275,6 @@ def run_family(ctx, prop):
                     continue
                 ctx.add(name, 'discharged' if ok else ('inconclusive' if ok is None else 'violated'), secs, 'asmx', detail)
             for key, text in r['viol']:
-                if key.startswith(prop):
+                if key.startswith(prop) or (prop == 'C07' and key.startswith('C01')):
                     ctx.violation(key, text + ' (replay: props/asm_kern.py run_kernel%s)' % (r['args'][:8],))
     ctx.extra.setdefault('asmx', {}).update({'kernel_instructions_executed_symbolically': tot['steps'], 'kernel_solver_queries': tot['queries']})
